@@ -96,8 +96,9 @@ Fixpoint index_of (x : A) (s : list A) : nat :=
 (* strict order induced by leb *)
 Definition lt_of (x y : A) : Prop := leb x y = true /\ x <> y.
 
+(* [let]: one sort per column, as numpy.unique does (and vm_compute then sorts once, not once per element) *)
 Definition dict_encode (l : list A) : list A * list nat :=
-  (uniq_sorted l, map (fun x => index_of x (uniq_sorted l)) l).
+  let u := uniq_sorted l in (u, map (fun x => index_of x u) l).
 
 (* values[encoding]; None = IndexError *)
 Fixpoint gather (d : list A) (codes : list nat) : option (list A) :=
